@@ -67,6 +67,32 @@ def run(ctx):
     quick = ctx.tier == "quick"
     import random
     rng = random.Random(ctx.seed)
+    # a user's model file whose function happens to carry the name of a
+    # shipped one (a copied template) with another formula is loaded, not
+    # registered: the shipped models keep evaluating THEIR formulas
+    try:
+        tdir = ctx.scratch / "foreign_models"
+        tdir.mkdir(exist_ok=True)
+        import registry_check as rc
+        for i, fname in enumerate(("hertz_paraboloidal", "hertz_conical",
+                                   "hertz_three_sided_pyramid",
+                                   "hertz_sneddon_spherical_approx",
+                                   "power_layer_clifford_2009")):
+            src = (rc.MODEL_SRC % {"key": f"verif_foreign{i}", "extra": ""})
+            src = src.replace("def model_func(", f"def {fname}(").replace(
+                "model_doc = model_func.__doc__",
+                f"model_func = {fname}\nmodel_doc = model_func.__doc__"
+            ).replace("aa = 4/3 * E", "aa = 2 * 4/3 * E")
+            f = tdir / f"foreign_{i}.py"
+            f.write_text(src)
+            with warnings.catch_warnings():
+                warnings.simplefilter("ignore")
+                model.load_model_from_file(f, register=False)
+        ctx.coverage["foreign_same_named_functions_loaded"] = 5
+    except BaseException as exc:
+        if isinstance(exc, (KeyboardInterrupt, SystemExit)):
+            raise
+        ctx.note(f"foreign model files could not be loaded: {exc!r}")
     nval = 0
     worst = 0.0
     per_model = {}
@@ -88,26 +114,52 @@ def run(ctx):
             for k, v in pfull.items():
                 params[k].set(value=v, min=-np.inf, max=np.inf)
             d0 = delta.copy()
-            with warnings.catch_warnings():
-                warnings.simplefilter("ignore")
-                got_func = md.module.model_func(delta.copy(), **pfull)
-                got_wrap = np.array(md.model(params, delta), copy=True)
-                # the same array object, shifted in place, evaluated again
-                # right away (a model must be a function of the VALUES)
-                delta -= U / 2
-                got_shift = md.model(params, delta)
-                want_shift = md.module.model_func(delta.copy(), **pfull)
-                got_rev = md.model(params, d0[::-1].copy())[::-1]
-                # the formulas are point-wise: an abscissa that goes in and
-                # out of contact (approach and retract in one array, a noisy
-                # tip position) gets the same value at every point
-                dz = np.array([cp + 3 * U, cp - depth, cp + U, cp - depth,
-                               cp, cp + 3 * U], dtype=float)
-                got_zz = np.asarray(md.model(params, dz.copy()),
-                                    float)[[0, 2, 4, 1]]
-                got_zzf = np.asarray(md.module.model_func(dz.copy(),
-                                                          **pfull),
-                                     float)[[0, 2, 4, 3]]
+            try:
+                with warnings.catch_warnings():
+                    warnings.simplefilter("ignore")
+                    got_func = md.module.model_func(delta.copy(), **pfull)
+                    got_wrap = np.array(md.model(params, delta), copy=True)
+                    # the same array object, shifted in place, evaluated again
+                    # right away (a model must be a function of the VALUES)
+                    delta -= U / 2
+                    got_shift = md.model(params, delta)
+                    want_shift = md.module.model_func(delta.copy(), **pfull)
+                    got_rev = md.model(params, d0[::-1].copy())[::-1]
+                    # the formulas are point-wise: an abscissa that goes in and
+                    # out of contact (approach and retract in one array, a noisy
+                    # tip position) gets the same value at every point
+                    dz = np.array([cp + 3 * U, cp - depth, cp + U, cp - depth,
+                                   cp, cp + 3 * U], dtype=float)
+                    got_zz = np.asarray(md.model(params, dz.copy()),
+                                        float)[[0, 2, 4, 1]]
+                    got_zzf = np.asarray(md.module.model_func(dz.copy(),
+                                                              **pfull),
+                                         float)[[0, 2, 4, 3]]
+                    # no sample in contact at all / a single one: the baseline
+                    doff = np.array([cp + 3 * U, cp + U, cp], dtype=float)
+                    got_off = np.asarray(md.model(params, doff.copy()), float)
+                    got_off1 = np.asarray(md.model(params, doff[:1].copy()),
+                                          float)
+                    got_offf = np.asarray(md.module.model_func(doff.copy(),
+                                                               **pfull), float)
+                    for nm, g in (("model_off_contact", got_off),
+                                  ("model_single_off_contact", got_off1),
+                                  ("model_func_off_contact", got_offf)):
+                        if not np.array_equal(g, np.full(g.shape, b)):
+                            ctx.report(
+                                f"C02_BaselineExact|{m}|{nm}|cp={cpu}|b={b}",
+                                f"{m}.{nm}: with no sample in contact the force "
+                                f"is {g} instead of the baseline {b} exactly "
+                                f"(point {fmt(p)})",
+                                {"kind": "point", "point": p, "cp": cpu, "b": b})
+            except (KeyboardInterrupt, SystemExit):
+                raise
+            except BaseException as exc:
+                ctx.report(f"C02_FormulaValue|{m}|raised|{type(exc).__name__}",
+                           f"{m}: evaluating the model at {fmt(p)} raised "
+                           f"{type(exc).__name__}: {str(exc)[:120]}",
+                           {"kind": "point", "point": p, "cp": cpu, "b": b})
+                continue
             nval += 1
             per_model[m] = per_model.get(m, 0) + 1
             for name, got, ref in (("model_func", got_func, want),
